@@ -19,6 +19,9 @@ SHAPES = [
     ("word", [0x12345678]), ("word", [-1, 2**32 + 5]), ("word", [2**32 - 1, -2**31, 2**32]),
     ("string", ""), ("string", "a"), ("string", "abc"), ("string", "abcd"),
     ("zero", 0), ("zero", 1), ("zero", 2),
+    # large reservations: the variables behind them sit around the 0x...7FC / 0x...800 boundary, where the lui/addi
+    # split of an address needs its carry compensation (la, load and store by name use separate copies of that code)
+    ("zero", 510), ("zero", 1023),
 ]
 
 
@@ -84,7 +87,11 @@ def check_decls(decls, radix, order, with_stores, p):
     # accessors: la / width-matching load for every variable and every index 0..len (one past the end included)
     acc = []
     for name, (a, sz, cnt, k) in vars_.items():
-        for idx in [None] + list(range(cnt + 1)):
+        idxs = list(range(cnt + 1))
+        if cnt > 8:
+            # big arrays: the ends plus every element whose address is next to a 2 KiB boundary
+            idxs = sorted({0, 1, cnt - 1, cnt} | {i for i in range(cnt + 1) if ((a + sz * i) & 0x7FF) in (0x7FC, 0x000, 0x004)})
+        for idx in [None] + idxs:
             ea = a + sz * (idx or 0)
             ref = name + ("" if idx is None else f"[{idx}]")
             acc.append(("la", ref, ea, None))
@@ -148,7 +155,10 @@ def check_decls(decls, radix, order, with_stores, p):
         # store-by-name to every element (index < len), then compare the whole image
         sts = []
         for name, (a, sz, cnt, k) in vars_.items():
-            for idx in range(cnt):
+            idxs = list(range(cnt))
+            if cnt > 8:
+                idxs = sorted({0, 1, cnt - 1} | {i for i in range(cnt) if ((a + sz * i) & 0x7FF) in (0x7FC, 0x000, 0x004)})
+            for idx in idxs:
                 sts.append(({1: "sb", 2: "sh", 4: "sw"}[sz], name + f"[{idx}]", a + sz * idx, sz))
         for ci in range(0, len(sts), 12):
             chunk = sts[ci:ci + 12]
@@ -186,7 +196,7 @@ def decl_features(decls):
     return dict(has_zero_decl=any(k == "zero" and v > 0 for k, v in decls))
 
 
-QUICK3 = [1, 2, 4, 7, 9, 11, 14, 15]  # shape subset for length 3 in the quick tier (every kind, the odd-sized ones)
+QUICK3 = [1, 2, 4, 7, 9, 11, 14, 16]  # shape subset for length 3 in the quick tier (every kind, the odd-sized ones)
 
 
 def decl_shard(shard):
@@ -210,6 +220,8 @@ def decl_shard(shard):
                 p.counters["string"] += 1
             if any(k == "zero" and v for k, v in decls):
                 p.counters["zero-reservation"] += 1
+            if any(k == "zero" and v > 500 for k, v in decls[:-1]):
+                p.counters["variable-behind-a-2KiB-boundary"] += 1
             for f, d, text in bad:
                 kinds = sorted({k for k, _v in decls})
                 p.violation(dict(oracle="data-layout", field=f, **decl_features(decls)), dict(kind="decls", idx=list(idx), radix=radix, order=order, stores=with_stores),
@@ -341,8 +353,8 @@ def replay(case):
 
 def run(ctx):
     thorough = not ctx.quick
-    ctx.rule = ("(a) every sequence of up to 2 (3) declarations over 16 shapes (.byte/.half/.word with 1-5 values incl. negative and out-of-range literals in three "
-                "radices, .string of 0-4 characters, .zero 0-2), .data before and after .text; for every variable and every index 0..len (one past the end) a la, "
+    ctx.rule = ("(a) every sequence of up to 2 (3) declarations over 18 shapes (.byte/.half/.word with 1-5 values incl. negative and out-of-range literals in three "
+                "radices, .string of 0-4 characters, .zero 0-2 and .zero 510 / 1023 so that later variables straddle a 2 KiB boundary), .data before and after .text; for every variable and every index 0..len (one past the end) a la, "
                 "a zero- and a sign-extending width-matching load-by-name, and (for every element) a store-by-name. Oracles: reference layout (first data address, "
                 "4-byte alignment of every variable, strides 1/2/4, little-endian, values mod element width, NUL terminator, .zero n = n words of stride 4): byte image "
                 "over the whole segment, registers after running the program, memory after the stores, and memory-table rows for every word holding a declared byte. "
@@ -372,4 +384,4 @@ def run(ctx):
     if d:
         part.violation(dict(oracle="example", field="registers"), dict(kind="example"), d)
     ctx.space("help-page-example", part, t0)
-    ctx.require("alignment-after-odd-sized-variable", "string", "zero-reservation", "li-carry-into-upper-part")
+    ctx.require("alignment-after-odd-sized-variable", "string", "zero-reservation", "li-carry-into-upper-part", "variable-behind-a-2KiB-boundary")
